@@ -203,7 +203,8 @@ class Fault:
          cls value   : site, kind in retype|delete|ref_self|ref_missing|ref_loop1|ref_loop2|
                                      off_self|off_dangling|off_cycle|off_garbage|off_ws|off_self_ws|off_cycle_ws|rawstr,  to (retype: target kind,
                                      'x' direct / 'r_x' through a reference), variant
-         cls payload : site = owner of the stream, kind corrupt|truncate, pos, mode (corrupt: flip|low)
+         cls payload : site = owner of the stream, kind corrupt|truncate|setfield, pos, mode (corrupt: flip|low;
+                       setfield: zero|max|beyond, variant = width of the field)
          cls file    : kind truncate, pos = number of bytes kept
          cls multi   : kind dup_kids_all (every /Kids element written twice at every level)
          mode nocache (cycle faults and dup_kids_all): the entry points are run with their caches off
@@ -351,9 +352,32 @@ class Layout:
         raise MachineryError("faultdoc: bad offset sentinel %r" % (o,))
 
 
+def font_program_header(owner, data, fontfiles):
+    """-> (hdr, fields) for Faults.tla: length of the binary header of an embedded font program and its fields
+    [offset, width].  TrueType / OpenType: offset table (12 bytes, numTables at 4) + 16-byte directory records (offset
+    at +8, length at +12) + 8 bytes; any other program: its first 32 bytes, no fields."""
+    if owner not in fontfiles or not data:
+        return 0, []
+    if data[:4] in (b"\x00\x01\x00\x00", b"true", b"OTTO", b"typ1") and len(data) >= 12:
+        n = int.from_bytes(data[4:6], "big")
+        n = min(n, (len(data) - 12) // 16)
+        fields = [[4, 2]]
+        for i in range(n):
+            fields += [[12 + 16 * i + 8, 4], [12 + 16 * i + 12, 4]]
+        return min(len(data), 12 + 16 * n + 8), fields
+    return min(len(data), 32), []
+
+
 def _payload_fault(f, data):
     if f.kind == "truncate":
         return data[:f.pos]
+    if f.kind == "setfield":
+        width = f.variant
+        if f.pos + width > len(data):
+            raise MachineryError("faultdoc: field at %d+%d outside payload of %d bytes" % (f.pos, width, len(data)))
+        top = (1 << (8 * width)) - 1
+        value = {"zero": 0, "max": top, "beyond": min(top - 1, len(data) + 1000)}[f.mode]
+        return data[:f.pos] + value.to_bytes(width, "big") + data[f.pos + width:]
     if f.kind == "corrupt":
         if f.pos >= len(data):
             raise MachineryError("faultdoc: corrupt position %d outside payload of %d bytes" % (f.pos, len(data)))
@@ -637,10 +661,18 @@ def describe(seed):
             sites.append(_site(owner, ownerobj, (), "root", v, objects, ()))
             sites[-1]["id"] = owner
         _walk(owner, ownerobj, v, (), objects, sites, OFFSET_KEYS if derived_owner else ())
+    # embedded font programs: the streams FontFile / FontFile2 / FontFile3 of a font descriptor refer to
+    fontfiles = set()
+    for v in objects.values():
+        if isinstance(v, dict):
+            for key in ("FontFile", "FontFile2", "FontFile3"):
+                if isinstance(v.get(key), Ref):
+                    fontfiles.add("obj:%d" % v[key].n)
     for owner, p in lay.payloads.items():
         if owner.startswith("old:"):
             continue
-        streams.append({"id": owner, "plen": len(p)})
+        hdr, fields = font_program_header(owner, p, fontfiles)
+        streams.append({"id": owner, "plen": len(p), "hdr": hdr, "fields": fields})
     ents = []
     for k, e in enumerate(lay.entries):
         form = seed.revs[k].form
